@@ -54,12 +54,16 @@ PROP = dict(
         "order-dependent) and excluded from the cross-process comparison",
         "sets that superimpose two sugar tuples at one index are excluded (KF-superimposed: genuine order dependence, witness theorem)",
         "unary minus over char/byte tuples is not generated (a negated @char is a hole marker: C05/C01)"],
-    level_text="Proof: Lean theorems over the C06 representation model - sorting by the C06 order is invariant under permutation of the "
-               "input (sort_perm_invariant, orderby without ties, printing order), the canonical key of every container depends only "
-               "on the multiset of the keys of its parts, the set builder is order-independent (KF-superimposed excluded, with a "
-               "witness of genuine order dependence there), printed text is a function of the canonical key; hence the observables of "
-               "evalUnder are the same for all enumeration orders. Runtime tie: the same programs in N fresh processes with different "
-               "hash seeds, byte-identical canon / repr / CLI output, equal to the model's prediction.",
+    level_text="Proof (partial): 13 Lean theorems over the C06 representation model - sorting by the C06 order is invariant under "
+               "permutation of the input, the canonical key of generic sets, union sets and relations depends only on the multiset of "
+               "member keys, orderby without ties is enumeration-independent (with ties only tied members swap), the set builder is "
+               "order-independent on the generic bucket (numbers, sets, the empty tuple), printed text is a function of the canonical "
+               "key for values without dictionaries/relations/union sets inside, and every NESTED program of the generic fragment "
+               "(| & &~ where with without {x} => over such sets) has the same canonical result under every enumeration order; "
+               "KF-superimposed has a witness of genuine order dependence. Not proved: set-builder order-independence for the "
+               "string/bytes/array/dict/relation buckets and the programs that need it (full statements kept as defs). Runtime tie: "
+               "the same programs in N fresh processes with different hash seeds, byte-identical canon / repr / CLI output, equal to "
+               "the model's prediction.",
     design_ref="DESIGN.md section 6, C07",
     watch=["rel.SetBuilder.Add", "rel.SetBuilder.Finish", "rel.asString", "rel.asBytes", "rel.asArray", "rel.NewDict",
            "rel.newSetFromFrozenSet", "rel.GenericSet.Format", "rel.UnionSet.Format", "rel.Dict.Format", "rel.Dict.OrderedEntries",
